@@ -23,7 +23,7 @@ Step(e) ==
                                                           before |-> e.gbefore, after |-> e.gafter]>> ELSE <<>>)
                       \* SmartStop!QuietAfterStop: no background work is left running when Stop has returned
                       \o (IF Has(e, "bgafter") /\ e.bgafter THEN <<[diag |-> "background-work-after-stop", scenario |-> e.scenario]>> ELSE <<>>)
-                      \o (IF Has(e, "note") /\ e.note # "" /\ e.equal /\ e.scenario = "smart-stop-inflight"
+                      \o (IF Has(e, "note") /\ e.note # "" /\ e.equal /\ e.scenario \in {"smart-stop-inflight", "smart-parent-cancel"}
                           THEN <<[diag |-> "scenario-setup-failed", scenario |-> e.scenario, note |-> e.note]>> ELSE <<>>)
                       \o (IF ~e.equal THEN <<[diag |-> "parallel-differs-from-sequential", scenario |-> e.scenario, note |-> e.note]>> ELSE <<>>)
          IN IF items # <<>>
